@@ -18,7 +18,7 @@ def httpStatus : Outcome → Nat
   | .error .unsupported => 415
   | .error .missingApp | .error .missingFeatures => 404
   | .error (.invalid _ _) => 400
-  | .error .fatal | .error .notRunning => 500
+  | .error .fatal | .error .notRunning | .error .brokenPool => 500
 
 structure HttpResponse where
   status : Nat
